@@ -219,11 +219,24 @@ ConfirmGood ==
                 Do([k |-> "Confirm", i |-> 0, by |-> by, chain |-> c, tx |-> tx, ext |-> hub.ch[c].ve[v], key |-> hub.ch[c].ve[v]])
     /\ xw' = XwObserve(xw, hub')
 
+\* two withdrawals in one transaction (all or nothing): the second one may ask for more than the sender has left
+TxSends ==
+    /\ hub.inb /\ \A c \in SendChains : hub.ch[c].txid + 1 < MaxSends
+    /\ \E from \in Users, c2 \in SendChains, d \in Denoms, amt2 \in Amts \cup {950} :
+          LET x == "h" \o ToString(cnt + 1)
+              c1 == CHOOSE c \in SendChains : TRUE
+              amt1 == Max(Amts)
+              fee == Max(Fees)
+              m1 == [k |-> "Send", i |-> 0, from |-> from, chain |-> c1, dest |-> "e5", denom |-> d, amt |-> amt1, fee |-> fee, x |-> x]
+              m2 == [k |-> "Send", i |-> 0, from |-> from, chain |-> c2, dest |-> "e6", denom |-> d, amt |-> amt2, fee |-> fee, x |-> x]
+          IN Do([k |-> "Tx", i |-> 0, by |-> from, msgs |-> <<m1, m2>>])
+    /\ xw' = XwObserve(xw, hub')
+
 \* a passed cold-storage proposal (governance): collateral is to be moved to the chain's cold storage address
 GovCold ==
     /\ hub.inb /\ \A c \in SendChains : hub.ch[c].txid < MaxSends
-    /\ \E c \in SendChains, d \in Denoms, amt \in {50, 333} :
-          Do([k |-> "Gov", i |-> 0, p |-> "ColdStorage", chain |-> c, denom |-> d, amt |-> amt])
+    /\ \E c \in SendChains, coins \in { <<<<"hub", 50>>>>, <<<<"usd", 333>>>>, <<<<"hub", 50>>, <<"usd", 120>>>> } :
+          Do([k |-> "Gov", i |-> 0, p |-> "ColdStorage", chain |-> c, coins |-> coins])
     /\ xw' = XwObserve(xw, hub')
 
 \* macro steps (several recorded actions in one model step) that make long productive behaviours likely in simulation
@@ -252,7 +265,7 @@ SendBatch ==
     /\ xw' = XwObserve(xw, hub')
 
 Kinds(fam) ==
-    CASE fam = "econ"   -> {"Begin", "End", "Send", "Cancel", "ReqBatch", "ExtDeposit", "ExtExec", "ExtMine", "AttestNext"}
+    CASE fam = "econ"   -> {"Begin", "End", "Send", "TxSends", "Cancel", "ReqBatch", "ExtDeposit", "ExtExec", "ExtMine", "AttestNext"}
       [] fam = "gov"    -> {"Begin", "End", "Send", "Cancel", "ReqBatch", "ExtDeposit", "ExtExec", "ExtMine", "AttestNext", "GovCold"}
       [] fam = "fees"   -> {"Begin", "NextBlock", "SendBatch", "Send", "ExtDeposit", "ExtExec", "AttestNext", "StakeChange"}
       [] fam = "attest" -> {"Begin", "End", "ClaimOne", "StakeChange"}
@@ -265,7 +278,7 @@ ActionOf(kind) ==
       [] kind = "ReqBatch" -> ReqBatch [] kind = "ExtDeposit" -> ExtDeposit [] kind = "ExtExec" -> ExtExec
       [] kind = "ExtMine" -> ExtMine [] kind = "AttestNext" -> AttestNext [] kind = "ClaimOne" -> ClaimOne
       [] kind = "StakeChange" -> StakeChange [] kind = "SetKeys" -> SetKeys [] kind = "Confirm" -> Confirm [] kind = "ConfirmGood" -> ConfirmGood
-      [] kind = "NextBlock" -> NextBlock [] kind = "SendBatch" -> SendBatch [] kind = "GovCold" -> GovCold [] OTHER -> FALSE
+      [] kind = "NextBlock" -> NextBlock [] kind = "SendBatch" -> SendBatch [] kind = "GovCold" -> GovCold [] kind = "TxSends" -> TxSends [] OTHER -> FALSE
 
 Next ==
     /\ cnt < MaxLen
